@@ -94,6 +94,9 @@ def modelObs (st : State) (ws : List String) : Option (State × String) :=
     let (st', os) := step st (.wake (nat! b) (nat! g))
     some (st', if os.contains .ignored then "IGNORED" else modelV os)
   | ["elapse", b] => some ((step st (.elapse (nat! b))).1, "-")
+  -- which free workers are momentarily away from their job channels is not a dispatcher event: the blocking
+  -- offer (`offerLoop`) does not depend on it
+  | "notrecv" :: _ => some (st, "-")
   | ["exit", p] =>
     let (st', os) := step st (.exit (nat! p))
     some (st', if os.contains .ignored then "IGNORED" else "-")
@@ -124,6 +127,7 @@ def obsOf1 (ws : List String) (obs : String) : List Obs :=
   | ["result", p, e] =>
     .result (nat! p) (nat! ((field ows "j").getD "0")) ((parseErr e).getD .other) :: vs ++ [.resultDone]
   | ["exit", p] => [.exited (nat! p)]
+  | "notrecv" :: ps => [.notReceiving (ps.map (fun x => nat! x))]
   | ["order"] => [.order (parseOrder obs)]
   | ["quit"] => .quit :: vs
   | ["final"] =>
